@@ -1,14 +1,17 @@
 """C09 - container series keep their length and dtype under every assignment history."""
+from contracts.c09_containers import CONTRACTS as CONTAINER_CONTRACTS
 from props.containers_bounded import Histories
 from verif.spec import PropertySpec
 
 PROPERTY = PropertySpec(
-    id='C09', contracts=[], bounded=[Histories()], level='exploration',
-    explanation='bounded: operation histories on the real classes',
-    level_text='bounded run-time contract (stand-in): representation invariant wf(container) and the frame on raising paths evaluated after '
-               'every operation of exhaustively enumerated short histories and random longer ones; the deductive contracts for the mutators are '
-               'not yet discharged (see DESIGN section 14), so nothing is counted as proved',
+    id='C09', contracts=list(CONTAINER_CONTRACTS), bounded=[Histories()], level='other',
+    explanation='Representation invariant wf(container) (every indexed name bound to a 1-D array with one element per period) proved to be preserved, with the '
+                'whole view specified (every other binding identical) and the raising paths proved to change nothing, for add_variable, __setattr__ on a '
+                'variable (all value shapes: scalar, str, arbitrary sequence with the deliberately weak np.array contract, ndarray) and '
+                'ModelInterface.add_variable. The remaining mutators (item/label stores: C10 contracts; values setter, replace_values, strict guard) '
+                'and the NumPy assumptions are exercised by the bounded histories on the real classes.',
+    level_text='proof obligations for the creating / replacing mutators (all inputs, opaque array algebra) + bounded histories for the rest; mixed, hence other',
     level_note='bound: histories of length <= 2 exhaustive over a 60-operation alphabet, random to length 6',
-    technique='contract-based verification: run-time contract (representation invariant + frame) on the real mutators, bounded histories',
+    technique='contract-based deductive verification of the representation invariant (pyvc + z3); bounded histories as conformance and stand-in',
     design_ref='DESIGN.md section 10 / C09',
 )
